@@ -566,8 +566,9 @@ func judge(res []result) (sig, what string) {
 		detail := ""
 		if r.SSA != base.SSA && r.Text != "" && base.Text != "" {
 			detail = firstDiff(base.Text, r.Text)
-			if canonSSA(r.Text, false) == canonSSA(base.Text, false) ||
-				canonSSA(r.Text, true) == canonSSA(base.Text, true) {
+			if initOrder(r.Text) != initOrder(base.Text) &&
+				(canonSSA(r.Text, false) == canonSSA(base.Text, false) ||
+					canonSSA(r.Text, true) == canonSSA(base.Text, true)) {
 				cause = "pkg-init-order"
 				detail = fmt.Sprintf("package initialisers run in order [%s] vs [%s]; %s",
 					initOrder(base.Text), initOrder(r.Text), detail)
